@@ -60,11 +60,13 @@ pid_t Launch(char *argv[], util::scoped_fd &in, util::scoped_fd &out) {
   status_out.reset();
 
   // Wait on child to signal successful execvp or error
-  int count, err;
+  int count, err = 0;
   while ((count = read(*status_in, &err, sizeof(errno))) == -1)
     if (errno != EAGAIN && errno != EINTR)
       break;
 
+  // err is only meaningful if the child wrote it.
+  UTIL_THROW_IF(count == -1, util::ErrnoException, "reading the exec status of the child failed");
   UTIL_THROW_IF(count != 0, util::Exception, "child's execvp failed: " << strerror(err));
   
   // Parent closes parts it doesn't need in destructors.
